@@ -151,8 +151,10 @@ def _prune_nulls(x: Any) -> Any:
     return x
 
 
-def ref_essence(body: Optional[dict[str, Any]], extra_status_fields: Iterable[str] = ()) -> Optional[dict[str, Any]]:
-    """Payload + labels + ordinary annotations; no status, no system metadata, no kopf annotations."""
+def ref_essence(body: Optional[dict[str, Any]], extra_status_fields: Iterable[str] = (),
+                own_prefix: Optional[str] = None) -> Optional[dict[str, Any]]:
+    """Payload + labels + ordinary annotations; no status, no system metadata, no kopf annotations
+    (those recognisable as such by anybody, plus those under the reading operator's own prefix)."""
     if body is None:
         return None
     ess: dict[str, Any] = {k: copy.deepcopy(v) for k, v in body.items()
@@ -162,7 +164,7 @@ def ref_essence(body: Optional[dict[str, Any]], extra_status_fields: Iterable[st
     if meta.get('labels'):
         m['labels'] = dict(meta['labels'])
     anns = meta.get('annotations') or {}
-    prefixes = kopf_prefixes(anns)
+    prefixes = kopf_prefixes(anns) | ({own_prefix} if own_prefix else set())
     keep = {k: v for k, v in anns.items()
             if k != LAST_APPLIED and not ('/' in k and k.split('/', 1)[0] in prefixes)}
     if keep:
